@@ -16,8 +16,16 @@ Forward.tla   middleware/forwarder (ServeDNS), middleware/failover (ResponseWrit
   - code -> spec: a free-running concurrent load with harness-chosen scripts is recorded (one harness-side sequence
     number per packet / reply) and validated by TLC against Trace_Forward.tla, invariants on.
 
+  - two dimensions beyond the walk: `prework` (the primary resolution below failover is rejected on one of the seven
+    NON-outbound budgets of the request tree while outbound budget is left: only failover's guard on the latched tree
+    keeps the fallback pool out; MC_F1B2_work, Sim_F2B2_work, negative MC_NegNoLatchGuard) and `id` (whose transaction
+    ID the message handed up carries: a retained fallback failure was asked under an ID of the server's own;
+    ReplyEchoesClientId, negative MC_NegLateStamp).  The replay spends the budget on the real ledger below failover.
+
 run_tier(ctx, families) is the entry for a merging check (families = which predicate families are judged as
-violations there: "c11", "c12", "c13", "c19"; the others are logged); `bin/check X11FW` runs it alone, all judged.
+violations there: "c06", "c11", "c12", "c13", "c19"; the others are logged); `bin/check X11FW` runs it alone, all
+judged.  run_echo(ctx) is the short entry of C06: the reply contract (ID / question / OPT echo, nothing of the
+upstream's reflected) on every terminal outcome of the forwarder / failover state machine.
 """
 import json
 import os
@@ -30,7 +38,8 @@ UNIT_MS = 250        # one model time unit
 T_UNITS = 2          # cfg.Timeout      = 500 ms
 QT_UNITS = 5         # cfg.QueryTimeout = 1250 ms
 MARGIN_MS = 1500     # generous on purpose: the machine is shared; a timing oracle must never flake
-FAMILIES = ("c11", "c12", "c13", "c19")
+FAMILIES = ("c06", "c11", "c12", "c13", "c19")
+WORK_KINDS = ("internal", "dnskey", "rrsig", "signature", "dsdigest", "nsec3", "crypto")
 
 
 def tlc_jobs(ctx, thorough):
@@ -40,6 +49,10 @@ def tlc_jobs(ctx, thorough):
             ("mc", "MC_F1B1_live_q.cfg" if not thorough else "MC_F1B1_live.cfg", 1, []),
             ("neg", "MC_NegNoDebit.cfg", "DebitBeforeSend"), ("neg", "MC_NegNoMatch.cfg", "NoMismatchRelayed"),
             ("neg", "MC_NegNoDeadline.cfg", "InTime"),
+            # prework / id dimensions: exhaustive (with ticks in the thorough tier), the two guards of failover switched off
+            ("mc", "MC_F1B2_work_q.cfg" if not thorough else "MC_F1B2_work.cfg", 1 if not thorough else 3, []),
+            ("neg", "MC_NegNoLatchGuard.cfg", "OverBudgetReplyIsWorkFail"), ("neg", "MC_NegLateStamp.cfg", "ReplyEchoesClientId"),
+            ("sim", "Sim_F2B2_work.cfg", 500 if not thorough else 6000),
             ("sim", "Sim_F3B2.cfg", 1200 if not thorough else 30000), ("sim", "Sim_F2B0.cfg", 300 if not thorough else 4000),
             ("sim", "Sim_F2B1_dot.cfg", 400 if not thorough else 6000),
             ("sim", "Sim_F2B1_doh.cfg", 400 if not thorough else 6000), ("graph", "MC_Graph_F2B1.cfg")]
@@ -67,7 +80,7 @@ def tlc_jobs(ctx, thorough):
         elif kind == "graph":
             out[cfg] = graph_cases(ctx)
 
-    with ThreadPoolExecutor(max_workers=5) as ex:
+    with ThreadPoolExecutor(max_workers=6) as ex:
         for f in [ex.submit(run, j) for j in jobs]:
             f.result()
     for j in big:
@@ -76,7 +89,8 @@ def tlc_jobs(ctx, thorough):
 
 
 def beh_key(b):
-    return json.dumps([b["nf"], b["nb"], b["mode"], b["cap"], b["script"], sorted(map(json.dumps, b["pre"]))], sort_keys=True)
+    return json.dumps([b["nf"], b["nb"], b["mode"], b["cap"], b["script"], sorted(map(json.dumps, b["pre"])), b.get("prework", "none")],
+                      sort_keys=True)
 
 
 def simulate(ctx, cfg, num, depth=80):
@@ -113,8 +127,26 @@ def pick(behs, n, rng):
 def to_case(b, cid, rng, dup=0):
     exp = {"sent": b["sent"], "reply": b["reply"], "m": b["m"], "debits": b["debits"], "passes": b["passes"],
            "latched": b["latched"], "engaged": b["engaged"], "replyAt": b["replyAt"]}
+    # upopts: a concretisation variant, not a model dimension - the upstreams add AD and EDNS options of their own
     return {"id": cid, "script": b["script"], "pre": b["pre"], "expect": None if dup else exp, "dup": dup,
-            "client": rng.randrange(16)}
+            "client": rng.randrange(16), "prework": b.get("prework", "none"), "upopts": rng.random() < 0.4}
+
+
+def pick_work(behs, per_enforce, per_other, rng):
+    """Sim_F2B2_work: every non-outbound budget, rejected (enforce) and merely counted (shadow / off)."""
+    by = {}
+    for b in behs:
+        if b.get("prework", "none") != "none":
+            by.setdefault((b["prework"], b["mode"]), []).append(b)
+    out = []
+    for (kind, mode), v in sorted(by.items()):
+        rng.shuffle(v)
+        v.sort(key=lambda b: -b["nsent"])       # shadow / off: the longer walks first
+        out += v[:per_enforce if mode == "enforce" else per_other]
+    missing = [k for k in WORK_KINDS if (k, "enforce") not in by]
+    if missing:
+        raise vf.MachineryError("Sim_F2B2_work produced no enforce behaviour rejected on %s" % missing)
+    return out
 
 
 def group_cases(behs, transport, rng, prefix, ecs_every=0, dup_every=0):
@@ -217,7 +249,14 @@ def replay(ctx, thorough, families, tl):
     f1b1 = pick(tl["Sim_F1B1.cfg"], n_side, rng) if "Sim_F1B1.cfg" in tl else []
     dot = pick(tl["Sim_F2B1_dot.cfg"], n_stream, rng)
     doh = pick(tl["Sim_F2B1_doh.cfg"], n_stream, rng)
+    # the small stream samples must hold a forwarder that answers over its stream (the vacuity check below asks for it;
+    # a sample without one is a property of the draw, not of the run)
+    for sample, cfg in ((dot, "Sim_F2B1_dot.cfg"), (doh, "Sim_F2B1_doh.cfg")):
+        answered = lambda b: any(ev[0] <= b["nf"] and b["script"][ev[0] - 1] == "answer" for ev in b["sent"])
+        if not any(answered(b) for b in sample):
+            sample += [b for b in tl[cfg] if answered(b)][:2]
     gbehs, n_edges, n_nodes = tl["MC_Graph_F2B1.cfg"]
+    work = pick_work(tl["Sim_F2B2_work.cfg"], 2 if not thorough else 12, 1 if not thorough else 8, rng)
     groups = []
     groups += group_cases(main, "", rng, "m", ecs_every=5, dup_every=9)
     groups += group_cases(f2b0, "", rng, "a", dup_every=11)
@@ -238,6 +277,8 @@ def replay(ctx, thorough, families, tl):
                                                   "mode": c["mode"], "cap": c["cap"], "ecs": False, "transport": "", "cases": []})
         g["cases"].append({"id": "k%d" % i, "script": c["script"], "pre": [], "expect": None, "dup": 0, "client": i})
     groups += list(cg.values())
+    groups += group_cases(work, "", rng, "w")
+    groups += echo_corner_groups()
     # free-running load with harness-chosen scripts (not TLC's): judged by the predicates and by Trace_Forward.tla
     n_stress = 24 if not thorough else 400
     sgroups = stress_groups(rng, n_stress)
@@ -246,7 +287,7 @@ def replay(ctx, thorough, families, tl):
         g["trace"] = g["nf"] == 3 and g["nb"] == 2 and not g["transport"] and g["name"].startswith(("s_", "m_"))
     trace_path = os.path.join(ctx.scratch, "forward_traces.ndjson")
     ncases = sum(len(g["cases"]) for g in groups)
-    n_nomodel = len(corner) + sum(len(g["cases"]) for g in sgroups)
+    n_nomodel = len(corner) + sum(len(g["cases"]) for g in sgroups) + sum(len(g["cases"]) for g in echo_corner_groups())
     ctx.log("forward replay: %d groups, %d cases (%d from the edge cover of a %d-node / %d-edge graph)" % (
         len(groups), ncases, len(gbehs), n_nodes, n_edges))
     res = run_replay_driver(ctx, groups, "forward_replay", trace_out=trace_path)
@@ -257,6 +298,10 @@ def replay(ctx, thorough, families, tl):
             "followups": c.get("followups", 0), "followups_fresh": c.get("followups_fresh", 0),
             "packets_with_ledger": c.get("packets_with_ledger", 0), "model_failover_walks": c.get("model_failover_walks", 0),
             "model_latched": c.get("model_latched", 0), "dup_cases": c.get("dup_cases", 0), "ecs_forwarded": c.get("ecs_forwarded", 0),
+            "prework_rejected": c.get("prework_rejected", 0), "echo_judged": c.get("echo_judged", 0),
+            "overbudget_edns": [c.get("overbudget_edns_ede", 0), c.get("overbudget_edns", 0)],
+            "prework": {k[8:]: v for k, v in c.items() if k.startswith("prework_") and k != "prework_rejected"},
+            "outcomes": {k[8:]: v for k, v in c.items() if k.startswith("outcome_")},
             "played": {k[7:]: v for k, v in c.items() if k.startswith("played_")},
             "replies": {k[6:]: v for k, v in c.items() if k.startswith("reply_")},
             "rcodes": {k[6:]: v for k, v in c.items() if k.startswith("rcode_")}}
@@ -284,7 +329,100 @@ def replay(ctx, thorough, families, tl):
     if not info["model_failover_walks"] or not info["model_latched"] or not info["packets_with_ledger"] or not info["followups"]:
         raise vf.MachineryError("forward replay: no failover walk / over-budget run / ledger observation / follow-up (vacuous): %s"
                                 % {k: info[k] for k in ("model_failover_walks", "model_latched", "packets_with_ledger", "followups")})
+    check_dimensions(info)
     validate_traces(ctx, trace_path, c.get("traces", 0), families)
+
+
+def check_dimensions(info, work=True):
+    """vacuity of the prework / id dimensions: every budget really refused below failover, every terminal outcome played"""
+    if work:
+        miss = [k for k in WORK_KINDS if not info["prework"].get(k + "_enforce")]
+        if miss or info["prework_rejected"] < len(WORK_KINDS):
+            raise vf.MachineryError("forward replay: no request tree rejected on the %s budget(s) below failover (%s, %d refused) (vacuous)"
+                                    % (miss, info["prework"], info["prework_rejected"]))
+        if not any(k.endswith(("_shadow", "_off")) for k in info["prework"]):
+            raise vf.MachineryError("forward replay: no shadow / off run with non-outbound work (vacuous)")
+    need = ["relay_none", "relay_none_fallback", "upfail_none", "upfail_none_fallback", "workfail_none", "fail_none"]
+    miss = [k for k in need if not info["outcomes"].get(k)]
+    if miss or not info["echo_judged"]:
+        raise vf.MachineryError("forward replay: terminal outcomes never handed up by failover: %s of %s (vacuous)" % (miss, info["outcomes"]))
+
+
+def echo_corner_groups():
+    """Terminal outcomes of the failover walk that must be played whatever the sample: every fallback fails too (the
+    retained failure of the FIRST one is handed up), a fallback recovers, nobody answers at all."""
+    scripts = [["servfail", "servfail", "servfail"], ["tcServfail", "servfail", "tcServfail"], ["servfail", "drop", "servfail"],
+               ["servfail", "servfail", "answer"], ["servfail", "nxdomain", "answer"], ["servfail", "garbage", "wrongQuestion"],
+               ["servfail", "refused", "servfail"], ["refused", "answer", "answer"]]
+    cases = [{"id": "e%d" % i, "script": sc, "pre": [], "expect": None, "dup": 0, "client": (5 * i + 3) % 16, "prework": "none",
+              "upopts": i % 2 == 0} for i, sc in enumerate(scripts)]
+    return [{"name": "echo_corner", "nf": 1, "nb": 2, "mode": "shadow", "cap": 4, "ecs": False, "transport": "", "cases": cases}]
+
+
+def outcome_class(b):
+    r, m = b["reply"], b["m"]
+    return (m["kind"], r["kind"], r["mark"], b["engaged"], r["from"] > b["nf"], b["latched"], b.get("prework", "none") != "none")
+
+
+def run_echo(ctx):
+    """C06's entry: the reply contract on every terminal outcome of the forwarder / failover state machine.  TLC: the small
+    exhaustive config with ReplyEchoesClientId, its negative twin, two simulations; the replay plays up to three
+    behaviours per outcome class (what the forwarder wrote, what failover handed up, mark, walked or not, which pool,
+    latched, prework), every client shape, with and without upstream-side options."""
+    thorough = ctx.tier == "thorough"
+    ctx.cov["rule"] = (ctx.cov.get("rule", "") + " | X11FW/echo: behaviours of Forward.tla covering every terminal outcome of the "
+                       "forwarder / failover walk, played by scripted upstreams against the real default chain; the reply "
+                       "contract is evaluated on the raw bytes of every reply").strip(" |")
+    ctx.spec_dir("Forward")
+    jobs = [("mc", "MC_F1B2_work_q.cfg" if not thorough else "MC_F1B2_work.cfg"), ("neg", "MC_NegLateStamp.cfg", "ReplyEchoesClientId"),
+            ("sim", "Sim_F3B2.cfg", 700 if not thorough else 12000), ("sim", "Sim_F2B2_work.cfg", 300 if not thorough else 4000)]
+    tl = {}
+
+    def run(job):
+        if job[0] == "mc":
+            ctx.tlc("Forward", "MC_Forward.tla", job[1], workers=1 if not thorough else 3, timeout=900, heap="4g", tag="exhaustive")
+        elif job[0] == "neg":
+            r = ctx.tlc("Forward", "MC_Forward.tla", job[1], workers=1, timeout=300, heap="2g", must_pass=False, tag="negative", count=False)
+            if r.violated != job[2]:
+                raise vf.MachineryError("negative config %s did not violate %s (got %s)" % (job[1], job[2], r.violated))
+        else:
+            tl[job[1]] = simulate(ctx, job[1], job[2])
+
+    with ThreadPoolExecutor(max_workers=4) as ex:
+        for f in [ex.submit(run, j) for j in jobs]:
+            f.result()
+    rng = random.Random(ctx.seed)
+    per = 3 if not thorough else 40
+    chosen = []
+    for cfg in ("Sim_F3B2.cfg", "Sim_F2B2_work.cfg"):
+        by = {}
+        behs = list(tl[cfg])
+        rng.shuffle(behs)
+        for b in behs:
+            by.setdefault(outcome_class(b), []).append(b)
+        for k in sorted(by, key=repr):
+            chosen += by[k][:per]
+    groups = group_cases(chosen, "", rng, "o", ecs_every=7) + echo_corner_groups()
+    ncases = sum(len(g["cases"]) for g in groups)
+    ctx.log("forward echo replay: %d groups, %d cases, %d outcome classes" % (len(groups), ncases, len({outcome_class(b) for b in chosen})))
+    res = run_replay_driver(ctx, groups, "forward_echo", followup=False)
+    res = fold(ctx, res, ("c06",), "[forward echo] ")
+    c = res.get("counters", {})
+    info = {"groups": len(groups), "cases": ncases, "cases_exact": c.get("cases_exact", 0), "drift_cases": c.get("drift_cases", 0),
+            "drift_notes": res.get("drift_notes", [])[:8], "echo_judged": c.get("echo_judged", 0),
+            "prework_rejected": c.get("prework_rejected", 0),
+            "prework": {k[8:]: v for k, v in c.items() if k.startswith("prework_") and k != "prework_rejected"},
+            "outcomes": {k[8:]: v for k, v in c.items() if k.startswith("outcome_")},
+            "rcodes": {k[6:]: v for k, v in c.items() if k.startswith("rcode_")}}
+    ctx.cov["replay"]["forward_echo"] = info
+    ctx.cov["traces_validated_against_impl"] += c.get("cases_total", 0)
+    ctx.log("forward echo replay: exact=%d drift=%d replies judged=%d outcomes=%s" % (
+        info["cases_exact"], info["drift_cases"], info["echo_judged"], info["outcomes"]))
+    if res.get("violations"):
+        return
+    if c.get("cases_total", 0) != ncases:
+        raise vf.MachineryError("forward echo replay ran %d of %d cases" % (c.get("cases_total", 0), ncases))
+    check_dimensions(info, work=False)
 
 
 def replay_file(ctx, path, families):
@@ -321,7 +459,8 @@ def stress_groups(rng, n):
             tuples = [[s, pr] for s in range(1, 6) for pr in ("udp", "tcp")]
             pre = rng.sample(tuples, rng.choice([0, 0, 1, 2]))
             cases.append({"id": "s%s%d" % (mode[0], i), "script": script, "pre": sorted(pre), "expect": None, "dup": 0,
-                          "client": rng.randrange(16)})
+                          "client": rng.randrange(16), "prework": rng.choice(WORK_KINDS) if i % 6 == 5 else "none",
+                          "upopts": i % 4 == 1})
         out.append({"name": "s_f3b2_%s%d" % (mode, cap), "nf": 3, "nb": 2, "mode": mode, "cap": cap, "ecs": False, "transport": "",
                     "cases": cases})
     return out
@@ -366,7 +505,7 @@ def validate_traces(ctx, path, expected, families):
         fc = ex.submit(ctx.tlc_trace, "Forward", "Trace_Forward.tla", "Trace_Forward.cfg", path, timeout=900, deque=False)
         (ok, r), first = fm.result(), fc.result()
     if not ok:
-        if r.violated in ("ObsAtMostOneReply", "ObsDebitFirst", "ObsWithinBudget"):
+        if r.violated in ("ObsAtMostOneReply", "ObsDebitFirst", "ObsWithinBudget", "ObsOverBudgetServfail"):
             fam = "c11" if r.violated == "ObsAtMostOneReply" else "c12"
             hw, _ = highwater(r)
             if fam in families:
@@ -454,4 +593,6 @@ def run_tier(ctx, families=FAMILIES):
 def run(ctx, replay_path):
     if replay_path:
         return replay_file(ctx, replay_path, FAMILIES)
+    if os.environ.get("X11FW_ONLY") == "echo":      # C06's short entry alone
+        return run_echo(ctx)
     run_tier(ctx)
